@@ -783,6 +783,9 @@ func (g *Global) addrKeysNoFresh(v ssa.Value, ws *writeSet) {
 		case *types.Pointer:
 			if at, ok := t.Elem().Underlying().(*types.Array); ok && isStruct(at.Elem()) {
 				g.structKeys(at.Elem(), ws)
+			} else {
+				// element of an array: the array lives wherever a.X points (a field, a cell)
+				g.addrKeysNoFresh(a.X, ws)
 			}
 		}
 	case *ssa.Alloc:
